@@ -26,6 +26,21 @@ for m in MODULES:
             props |= {'C02', 'C16'}
         CONTRACTS.append((m, C.__name__, sorted(props)))
 
+# a constructor contract serves every property the step / segment contracts of its class serve: the steps quantify over the
+# values of the fields, the constructor connects the fields to what the user wrote (a timeout of 0 turned into None by the
+# constructor breaks C02 / C08 through the step that never arms a timer)
+_by_cls = {}
+for _m, _n, _p in CONTRACTS:
+    if _m != 'contracts.c_init':
+        _c = getattr(importlib.import_module(_m), _n)
+        if getattr(_c, 'cls', None):
+            _by_cls.setdefault(_c.cls, set()).update(_p)
+for _i, (_m, _n, _p) in enumerate(CONTRACTS):
+    if _m == 'contracts.c_init':
+        _c = getattr(importlib.import_module(_m), _n)
+        if getattr(_c, 'method', '__init__') == '__init__' and getattr(_c, 'cls', None) in _by_cls:
+            CONTRACTS[_i] = (_m, _n, sorted(set(_p) | (_by_cls[_c.cls] - {'C20'})))
+
 COMMON_TRUSTED = [
     'pyvc (self-written AST->z3 verification-condition generator) and its encoding of the Python subset (DESIGN 2.2)',
     'z3 5.1.0 (z3-solver wheel), cvc5 1.0.3 for z3 unknowns',
